@@ -441,6 +441,18 @@ class Engine:
         if isinstance(v, VMap):
             f = z3.Function('nonempty_' + str(v.dom.sort()), v.dom.sort(), BoolS)
             return f(v.dom)
+        if isinstance(v, VSymSet):
+            # bool(set) = "has at least one member" = z != {} .  Stated through a witness w with the conservative
+            # definition  z[w] <-> z != {}  (such a w always exists: any member, or anything when z is empty), so that
+            # the replay enumerates w among the candidate members and builds a set that is empty iff the model's is
+            for zt_, w in st.heap.get('__setwit__', ()):
+                if zt_.eq(v.z):
+                    return z3.Select(v.z, w)
+            w = z3.Const(fresh_name('member'), v.z.domain())
+            st.assume(z3.Select(v.z, w) == (v.z != z3.K(v.z.domain(), z3.BoolVal(False))))
+            st.heap['__setwit__'] = tuple(st.heap.get('__setwit__', ())) + ((v.z, w),)
+            st.heap['__setkeys__'] = tuple(st.heap.get('__setkeys__', ())) + (w,)
+            return z3.Select(v.z, w)
         raise Unsupported(f'truthiness of {v!r}')
 
     def unopt(self, s, v, node):
